@@ -29,6 +29,9 @@ CLAIMED = {
     "C09": ("truth table over the extracted dedup guard + structural invariants of the bloom filter + commit-sequence rule for the processed-mark + SQL shapes",
             "Decides: the durable record is consulted unless the filter is trusted, authoritative and negative; one deterministic position function, all positions set, bits only OR-ed; authority only after a complete hydrate, revoked by reset; mark in the last commit, INSERT OR IGNORE without commit, same table/key as the lookup.",
             "Trusted: hashlib determinism.", "5/C09"),
+    "C10": ("effect analysis of the sweep on all its paths (pushes only) + who-may-call scan of recovery.py + control-dependence of every task-level message on the pending-message check + SQL shape of that check + commit-sequence shapes + receiver value sets + sibling agreement with ContinueParentStage",
+            "Decides: the sweep never writes entity or dedup state; every RunTask/StartTask it builds is dominated by `not has_pending_message_for_task(that task)`; the pending check sees locked, delayed and retried messages alike and every task-carrying message has a task_id; all messages of one workflow are pushed in one transaction; the receivers of the unguarded messages act only on NOT_STARTED entities (RunTask: RUNNING); StartTask(first task) is re-queued only when the before-stages are complete, with the same status set ContinueParentStage uses. Does not decide outcome equality with and without sweeps.",
+            "Trusted: SQLite writer serialisation; C04 for the StartStage claim.", "5/C10"),
     "C11": ("ordering analysis on all paths of _start_if_ready (claims inside the claim transaction) + SQL/DDL shape rules for stage_claims",
             "Decides: mutex/choice claims are taken inside the claim transaction before the claiming store; a refused claim rolls back and never plans (mutex re-queues, choice cancels itself atomically); acquire_claim statement shapes and the unique key in schema and migration; claims only swept for completed executions; the winner cancels siblings. Does not decide interleavings or fairness.",
             "Trusted: SQLite unique-constraint semantics.", "5/C11"),
